@@ -213,7 +213,7 @@ prop('C17', units=['syn', 'dg', 'idx', 'ut'], level='proof',
 
 prop('C18', units=['fr', 'ut'], level='proof',
      bounded=[dict(test='c18_symbols', covers='the document-symbol half of C18 (symbol_to_document_symbol / per-file symbol lists: iterator chains over the symbol map, outside the contracts)',
-                   bound='a fixed corpus written from the property statement: 5 workspaces (template arguments and fields as children, also of a multiclass; an anonymous def is not listed; overridden field, defset with its defs as children and their own field children, redeclared name, a file and its include) whose outlines - kinds, names, text at the ranges, order, nesting - are compared with the expected ones')],
+                   bound='a fixed corpus written from the property statement: 6 workspaces (template arguments and fields as children, also of a multiclass; defs declared inside let, if / else and foreach blocks; an anonymous def is not listed; overridden field, defset with its defs as children and their own field children, redeclared name, a file and its include) whose outlines - kinds, names, text at the ranges, order, nesting - are compared with the expected ones')],
      explanation=('Partial: the folding-range half. Unit FR moves the filter closure of ide::handlers::folding_range::exec into a function and proves that it answers Some exactly for class, def, defset, '
                   'foreach, if, let and multiclass statement nodes (the list of the property) and that the range is [first token of the statement, end of its last non-trivia token] - the latter through '
                   'the contract of utils::range_excluding_trivia, which unit UT proves on the real code over an assumed model of rowan\'s token sequence. One range per such descendant, in document '
